@@ -4,7 +4,7 @@
   does every op sequence that contains no such transition (`quiet_rk`).
 -/
 import DymVerif.Lemmas.CoreForkInv3
-namespace DymVerif.Core
+namespace DymVerif.Core.Fork
 
 /-- rollapp `ra` keeps its revisions and its latest height -/
 def RK (ra : Nat) (s s' : St) : Prop :=
@@ -314,4 +314,4 @@ theorem quiet_rk {ra : Nat} {s : St} {ops : List Op} (hi : Inv s) (hq : Quiet ra
       · exfalso; apply h1; unfold step; rw [ha]
     | error er => exact RK.refl ra s
 
-end DymVerif.Core
+end DymVerif.Core.Fork
